@@ -399,7 +399,7 @@ Proof.
   - intros i Hi. rewrite Srk by exact Hi. apply Rrange; exact Hi.
   - intros i Hi. rewrite !Srk by lia. split; [lia|]. apply Rmono; [lia|lia|]. apply Hle. exact Hi.
   - intros i Hi. reflexivity.
-  - intros U [HU _] i Hi. apply HU; exact Hi.
+  - intros dec U _ [HU _] i Hi Hib. apply HU; assumption.
 Qed.
 
 (* ------------------------------------------------------------------ layer 5: the run of a set-up
